@@ -108,6 +108,9 @@ pub enum Val {
     Snapshot { book: BookSpec, vis: u64, hid: u64, count: u64 },
     Package(BookSpec),
     Stats([u64; 8]),
+    /// a value, then the same value with some quantities changed (same ids), decoded one after the
+    /// other while the first decoded value is still alive; kind 0 snapshot, 1 package, 2 level
+    Evolving { book: BookSpec, changes: Vec<(u16, u64)>, kind: u8 },
 }
 
 impl Val {
@@ -126,6 +129,7 @@ impl Val {
             Val::Snapshot { .. } => "PriceLevelSnapshot",
             Val::Package(_) => "PriceLevelSnapshotPackage",
             Val::Stats(_) => "PriceLevelStatistics",
+            Val::Evolving { .. } => "successive snapshots of one level",
         }
     }
 }
@@ -205,8 +209,41 @@ pub fn book_spec(max: usize) -> BoxedStrategy<BookSpec> {
         .boxed()
 }
 
+fn len_small_or_long(small_max: usize) -> BoxedStrategy<usize> {
+    prop_oneof![
+        12 => 0..=small_max,
+        1 => 30usize..=45,
+        1 => 72usize..=78,
+    ]
+    .boxed()
+}
+
+fn tx_list(small_max: usize) -> BoxedStrategy<Vec<TxSpec>> {
+    len_small_or_long(small_max).prop_flat_map(|n| proptest::collection::vec(tx_spec(), n..=n)).boxed()
+}
+
+fn id_list(small_max: usize) -> BoxedStrategy<Vec<IdSpec>> {
+    (len_small_or_long(small_max), any::<bool>(), gen::boundary_u128())
+        .prop_flat_map(|(n, uniform, seed)| {
+            if uniform && n > 0 {
+                // all ids of one format (fixed-width lists)
+                let ulid = seed & 1 == 1;
+                Just((0..n as u128).map(|i| if ulid { IdSpec::Ulid(seed.wrapping_add(i)) } else { IdSpec::Uuid(seed.wrapping_add(i)) }).collect::<Vec<_>>()).boxed()
+            } else {
+                proptest::collection::vec(gen::id_spec(), n..=n).boxed()
+            }
+        })
+        .boxed()
+}
+
 pub fn val() -> BoxedStrategy<Val> {
     prop_oneof![
+        1 => (any_order_spec(), gen::id_spec(), gen::boundary_u64(), any::<u64>()).prop_map(|(spec, id, price, salt)| {
+            // the longest encodings: every numeric field 20 digits wide
+            let mut spec = gen::widest(spec, salt);
+            if !spec.kind.has_hidden() { spec.hidden = 0; }
+            Val::Order { spec, id, price: price | (1 << 63) }
+        }),
         6 => (any_order_spec(), gen::id_spec(), gen::boundary_u64()).prop_map(|(mut spec, id, price)| {
             if !spec.kind.has_hidden() { spec.hidden = 0; }
             Val::Order { spec, id, price }
@@ -217,12 +254,15 @@ pub fn val() -> BoxedStrategy<Val> {
         2 => gen::tif().prop_map(Val::Tif),
         1 => (0u8..4).prop_map(Val::Peg),
         3 => tx_spec().prop_map(Val::Tx),
-        2 => proptest::collection::vec(tx_spec(), 0..8).prop_map(Val::TxList),
-        3 => (gen::id_spec(), gen::boundary_u64(), any::<bool>(), proptest::collection::vec(tx_spec(), 0..6), proptest::collection::vec(gen::id_spec(), 0..6))
+        2 => tx_list(7).prop_map(Val::TxList),
+        3 => (gen::id_spec(), gen::boundary_u64(), any::<bool>(), tx_list(5), id_list(5))
             .prop_map(|(id, remaining, complete, txs, filled)| Val::MatchRes { id, remaining, complete, txs, filled }),
         3 => book_spec(8).prop_map(Val::Level),
         2 => (book_spec(6), gen::boundary_u64(), gen::boundary_u64(), gen::boundary_u64()).prop_map(|(book, vis, hid, count)| Val::Snapshot { book, vis, hid, count }),
         2 => book_spec(6).prop_map(Val::Package),
+        1 => book_spec(70).prop_map(Val::Level),
+        1 => book_spec(70).prop_map(Val::Package),
+        2 => (book_spec(6), proptest::collection::vec((any::<u16>(), gen::boundary_u64()), 1..4), 0u8..3).prop_map(|(book, changes, kind)| Val::Evolving { book, changes, kind }),
         2 => proptest::array::uniform8(gen::boundary_u64()).prop_map(Val::Stats),
     ]
     .boxed()
@@ -271,6 +311,7 @@ pub fn nontrivial(v: &Val, json_mode: bool) -> bool {
             }
         }
         Val::Stats(a) => a.iter().any(|x| is_boundary(*x)),
+        Val::Evolving { book, .. } => json_mode && !book.orders.is_empty(),
     }
 }
 
@@ -440,7 +481,7 @@ pub fn check_text(v: &Val) -> Result<(), String> {
                 &(y.price, y.visible_quantity, y.hidden_quantity, y.order_count),
             )
         }
-        Val::Package(_) => Ok(()),
+        Val::Package(_) | Val::Evolving { .. } => Ok(()),
         Val::Stats(a) => {
             let x = stats_of(a);
             let (s, y) = text_rt(&x)?;
@@ -546,6 +587,54 @@ pub fn check_json(v: &Val) -> Result<(), String> {
             let x = stats_of(a);
             let (s, y) = json_rt(&x)?;
             same("PriceLevelStatistics", &s, &stats_vec(&x), &stats_vec(&y))
+        }
+        Val::Evolving { book, changes, kind } => {
+            // second version: same ids, some displayed quantities changed (kept within u64 sums)
+            let mut book2 = book.clone();
+            if book2.orders.is_empty() {
+                return Ok(());
+            }
+            for (i, q) in changes {
+                let n = book2.orders.len();
+                let k = crate::gen::pick(*i, n);
+                let others: u128 = book2.orders.iter().enumerate().filter(|(j, _)| *j != k).map(|(_, (_, s))| s.display as u128 + s.hidden as u128).sum();
+                let room = (u64::MAX as u128 - others.min(u64::MAX as u128)) as u64;
+                let h = book2.orders[k].1.hidden;
+                book2.orders[k].1.display = (*q).min(room.saturating_sub(h));
+            }
+            let snap = |b: &BookSpec| {
+                let mut s = PriceLevelSnapshot::new(b.price);
+                s.orders = b.build_orders().into_iter().map(Arc::new).collect();
+                s.refresh_aggregates();
+                s
+            };
+            let f = |z: &PriceLevelSnapshot| (z.price, z.visible_quantity, z.hidden_quantity, z.order_count, z.orders.iter().map(|a| **a).collect::<Vec<_>>());
+            match kind % 3 {
+                0 => {
+                    let (x1, x2) = (snap(book), snap(&book2));
+                    let (_s1, y1) = json_rt(&x1)?; // stays alive while the second is decoded
+                    let (s2, y2) = json_rt(&x2)?;
+                    same("PriceLevelSnapshot (first version)", "", &f(&x1), &f(&y1))?;
+                    same("PriceLevelSnapshot (decoded while an earlier decoded version of the same level is alive)", &s2, &f(&x2), &f(&y2))
+                }
+                1 => {
+                    let p1 = PriceLevelSnapshotPackage::new(snap(book)).map_err(|e| e.to_string())?;
+                    let p2 = PriceLevelSnapshotPackage::new(snap(&book2)).map_err(|e| e.to_string())?;
+                    let d1 = PriceLevelSnapshotPackage::from_json(&p1.to_json().map_err(|e| e.to_string())?).map_err(|e| e.to_string())?;
+                    let j2 = p2.to_json().map_err(|e| e.to_string())?;
+                    let d2 = PriceLevelSnapshotPackage::from_json(&j2).map_err(|e| format!("cannot read own package: {e}"))?;
+                    d1.validate().map_err(|e| format!("first package no longer validates: {e}"))?;
+                    d2.validate().map_err(|e| format!("a package decoded while an earlier decoded package of the same level is alive does not validate ({j2}): {e}"))?;
+                    same("PriceLevelSnapshotPackage (second version)", &j2, &f(&p2.snapshot), &f(&d2.snapshot))
+                }
+                _ => {
+                    let (l1, l2) = (book.build_level(), book2.build_level());
+                    let (_s1, y1) = json_rt(&l1)?;
+                    let (s2, y2) = json_rt(&l2)?;
+                    same("PriceLevel (first version)", "", &level_content(&l1), &level_content(&y1))?;
+                    same("PriceLevel (decoded while an earlier decoded version is alive)", &s2, &level_content(&l2), &level_content(&y2))
+                }
+            }
         }
     }
 }
